@@ -378,3 +378,246 @@ Proof.
     subst n n'. split; [reflexivity|].
     apply (invert_count_end tau bq L c e d d' E E'); assumption.
 Qed.
+
+(** ** the three pairs whose count is a brentq root: (total,start) (total,end) (start,end) *)
+
+(** the near-uniform branch is taken on both sides or on neither *)
+Definition band_sym (tau E : R) : Prop := Rabs (E - 1) < tau <-> Rabs (/ E - 1) < tau.
+
+Lemma Galt_lt_1 x E : 0 < E -> E <> 1 -> 0 < x -> x < 1 -> Galt x E < 1.
+Proof.
+  intros HE HE1 Hx0 Hx1. unfold Galt.
+  assert (Hy : 1 / (x - 1) < 0).
+  { unfold Rdiv. rewrite Rmult_1_l. apply Rinv_lt_0_compat. lra. }
+  pose proof (Rpower_pos E (1 / (x - 1))) as Hq0.
+  destruct (Rlt_dec E 1) as [Hlt|Hge].
+  - pose proof (Rpower_smono_lt1 E _ _ HE Hlt Hy) as Hq. rewrite Rpower_O in Hq by assumption.
+    assert (Hneg : (1 - E) / (1 - Rpower E (1 / (x - 1))) < 0).
+    { replace ((1 - E) / (1 - Rpower E (1 / (x - 1)))) with (- ((1 - E) / (Rpower E (1 / (x - 1)) - 1))) by (field; lra).
+      assert (0 < (1 - E) / (Rpower E (1 / (x - 1)) - 1)) by (apply Rdiv_lt_0_compat; lra). lra. }
+    lra.
+  - assert (Hgt : 1 < E) by lra.
+    pose proof (Rpower_smono_gt1 E _ _ Hgt Hy) as Hq. rewrite Rpower_O in Hq by lra.
+    assert (Hd : 0 < 1 - Rpower E (1 / (x - 1))) by lra.
+    assert (Hlt1 : E - 1 < (E - 1) / (1 - Rpower E (1 / (x - 1)))).
+    { apply Rmult_lt_reg_r with (1 - Rpower E (1 / (x - 1))); [assumption|].
+      replace ((E - 1) / (1 - Rpower E (1 / (x - 1))) * (1 - Rpower E (1 / (x - 1)))) with (E - 1) by (field; lra).
+      nra. }
+    replace ((1 - E) / (1 - Rpower E (1 / (x - 1)))) with (- ((E - 1) / (1 - Rpower E (1 / (x - 1))))) by (field; lra).
+    lra.
+Qed.
+
+Lemma pyint_small x : 0 < x -> x < 1 -> pyint x = 0%Z.
+Proof.
+  intros H0 H1. unfold pyint. rewrite Ztrunc_floor by lra. apply Zfloor_imp. simpl. lra.
+Qed.
+
+(** count <- (1/E, s E) = count <- (E, s): same smallest cell in the near-uniform branch; the same real root, or
+    two roots below 1 (one cell), in the brentq branch - for EVERY sound oracle *)
+Lemma count_total_start_mirror tau bq L E s n n' :
+  brentq_sound bq -> 0 < tau -> 0 < E -> band_sym tau E ->
+  count_total_start tau bq L E s = Some n -> count_total_start tau bq L (/ E) (s * E) = Some n' -> n' = n.
+Proof.
+  intros Hbq Htau HE Hband H H'.
+  destruct (count_total_start_cases _ _ _ _ _ _ H Hbq) as (HL & Hs & HE0 & Hc).
+  destruct (count_total_start_cases _ _ _ _ _ _ H' Hbq) as (_ & Hs' & _ & Hc').
+  assert (HiE : 0 < / E) by (apply Rinv_0_lt_compat; assumption).
+  destruct Hc as [[Hb ->]|[Hb (x & Hx & Hx1 & HG & ->)]];
+    destruct Hc' as [[Hb' ->]|[Hb' (x' & Hx' & Hx1' & HG' & ->)]].
+  - f_equal. f_equal. destruct (Req_dec E 1) as [->|HE1].
+    + rewrite Rinv_1. unfold d_min. destruct (Rltb 1 1); ring.
+    + apply d_min_mirror; assumption.
+  - exfalso. apply Hband in Hb. lra.
+  - exfalso. apply Hband in Hb'. lra.
+  - assert (HE1 : E <> 1).
+    { intros ->. replace (1 - 1) with 0 in Hb by ring. rewrite Rabs_R0 in Hb. lra. }
+    assert (HiE1 : / E <> 1). { intros Hc. apply HE1. rewrite <- (Rinv_inv E), Hc. apply Rinv_1. }
+    (* both equations on both sides *)
+    pose proof (count_spec_mirror L E s x HE HE1 Hx1 Hs HG) as HGm.
+    pose proof (count_spec_mirror L (/ E) (s * E) x' HiE HiE1 Hx1' Hs' HG') as HGm'.
+    rewrite Rinv_inv in HGm'. replace (s * E * / E) with s in HGm' by (field; lra).
+    rewrite Gcode_alt in HG, HG', HGm, HGm' by assumption.
+    destruct (Rlt_dec 1 x) as [Hgx|Hlx]; destruct (Rlt_dec 1 x') as [Hgx'|Hlx'].
+    + f_equal. f_equal. rewrite <- !Gcode_alt in HG, HG' by assumption.
+      apply (count_root_mirror_unique L E s x x'); assumption.
+    + exfalso. pose proof (Galt_gt_1 x E HE HE1 Hgx). pose proof (Galt_lt_1 x' E HE HE1 Hx' ltac:(lra)). lra.
+    + exfalso. pose proof (Galt_gt_1 x' (/ E) HiE HiE1 Hgx'). pose proof (Galt_lt_1 x (/ E) HiE HiE1 Hx ltac:(lra)). lra.
+    + rewrite !pyint_small by lra. reflexivity.
+Qed.
+
+Lemma band_sym_inv tau E : E <> 0 -> band_sym tau E -> band_sym tau (/ E).
+Proof. intros HE [H1 H2]. unfold band_sym. rewrite Rinv_inv. split; assumption. Qed.
+
+Ltac mirror_tac :=
+  match goal with
+  | Ha : count_total_start ?t ?b ?l ?E0 ?s0 = Some ?n0,
+    Hb : count_total_start ?t ?b ?l (/ ?E0) (?s0 * ?E0) = Some ?n1 |- ?n1 = ?n0 =>
+      apply (count_total_start_mirror t b l E0 s0 n0 n1); assumption
+  end.
+
+(** (total, start) -> (1/total, end) *)
+Lemma invert_total_start tau bq L T s d d' n n' E E' :
+  brentq_sound bq -> 0 < tau -> 0 < T -> band_sym tau T ->
+  plan_total_start tau bq L T s = Some d -> returned d = Some (n, E) ->
+  plan_total_end tau bq L (/ T) s = Some d' -> returned d' = Some (n', E') -> n' = n /\ E' = / E.
+Proof.
+  intros Hbq Htau HT Hb H Hret H' Hret'.
+  unfold plan_total_start in H. unfold plan_total_end in H'. inv_guards.
+  cbv [returned bind d_count d_total] in Hret, Hret'. inversion Hret; inversion Hret'; subst. split; [|reflexivity].
+  match goal with Hs : start_end_total _ _ _ = Some ?s0 |- _ =>
+    apply start_end_total_law in Hs; destruct Hs as (_ & _ & Hs0); subst s0 end.
+  match goal with Hc : count_total_start _ _ _ _ (s / / ?T0) = Some _ |- _ =>
+    replace (s / / T0) with (s * T0) in Hc by (field; lra) end.
+  mirror_tac.
+Qed.
+
+(** (total, end) -> (1/total, start) *)
+Lemma invert_total_end tau bq L T e d d' n n' E E' :
+  brentq_sound bq -> 0 < tau -> 0 < T -> band_sym tau T ->
+  plan_total_end tau bq L T e = Some d -> returned d = Some (n, E) ->
+  plan_total_start tau bq L (/ T) e = Some d' -> returned d' = Some (n', E') -> n' = n /\ E' = / E.
+Proof.
+  intros Hbq Htau HT Hb H Hret H' Hret'.
+  unfold plan_total_end in H. unfold plan_total_start in H'. inv_guards.
+  cbv [returned bind d_count d_total] in Hret, Hret'. inversion Hret; inversion Hret'; subst. split; [|reflexivity].
+  match goal with Hs : start_end_total _ _ _ = Some ?s0 |- _ =>
+    apply start_end_total_law in Hs; destruct Hs as (_ & _ & Hs0); subst s0 end.
+  match goal with Hc : count_total_start _ _ _ (/ ?T0) e = Some _ |- _ =>
+    replace e with (e / T0 * T0) in Hc by (field; lra) end.
+  mirror_tac.
+Qed.
+
+(** (start, end) -> (end, start) *)
+Lemma invert_start_end tau bq L s e d d' n n' E E' :
+  brentq_sound bq -> 0 < tau -> band_sym tau (e / s) ->
+  plan_start_end tau bq L s e = Some d -> returned d = Some (n, E) ->
+  plan_start_end tau bq L e s = Some d' -> returned d' = Some (n', E') -> n' = n /\ E' = / E.
+Proof.
+  intros Hbq Htau Hb H Hret H' Hret'.
+  unfold plan_start_end in H, H'. inv_guards.
+  cbv [returned bind d_count d_total] in Hret, Hret'. inversion Hret; inversion Hret'; subst.
+  repeat match goal with Ht : total_start_end _ _ _ = Some _ |- _ =>
+    apply total_start_end_law in Ht; destruct Ht as (_ & ? & ? & ? & ?) end. subst.
+  split; [|field; lra].
+  match goal with Hc : count_total_start _ _ _ (s / e) e = Some _ |- _ =>
+    replace (s / e) with (/ (e / s)) in Hc by (field; lra);
+    replace e with (s * (e / s)) in Hc at 2 by (field; lra) end.
+  mirror_tac.
+Qed.
+
+Definition invert_root_law (table : list rel) : Prop :=
+  forall tau bq L d d' n n' E E', brentq_sound bq -> 0 < tau ->
+  (forall T s, 0 < T -> band_sym tau T ->
+     calculate tau bq L table (mk_data None (Some T) None (Some s) None) = Some d -> returned d = Some (n, E) ->
+     calculate tau bq L table (invert (mk_data None (Some T) None (Some s) None)) = Some d' ->
+     returned d' = Some (n', E') -> n' = n /\ E' = / E) /\
+  (forall T e, 0 < T -> band_sym tau T ->
+     calculate tau bq L table (mk_data None (Some T) None None (Some e)) = Some d -> returned d = Some (n, E) ->
+     calculate tau bq L table (invert (mk_data None (Some T) None None (Some e))) = Some d' ->
+     returned d' = Some (n', E') -> n' = n /\ E' = / E) /\
+  (forall s e, band_sym tau (e / s) ->
+     calculate tau bq L table (mk_data None None None (Some s) (Some e)) = Some d -> returned d = Some (n, E) ->
+     calculate tau bq L table (invert (mk_data None None None (Some s) (Some e))) = Some d' ->
+     returned d' = Some (n', E') -> n' = n /\ E' = / E).
+
+Lemma invert_root table : calc_is_plan table -> invert_root_law table.
+Proof.
+  intros Hp tau bq L d d' n n' E E' Hbq Htau.
+  destruct (Hp tau bq L) as (_ & _ & _ & _ & _ & _ & _ & P8 & P9 & P10).
+  split; [|split].
+  - intros T s HT Hb H Hret H' Hret'. rewrite P8 in H.
+    cbv [invert option_map d_count d_total d_c2c d_start d_end] in H'. rewrite P9 in H'.
+    apply (invert_total_start tau bq L T s d d' n n' E E'); assumption.
+  - intros T e HT Hb H Hret H' Hret'. rewrite P9 in H.
+    cbv [invert option_map d_count d_total d_c2c d_start d_end] in H'. rewrite P8 in H'.
+    apply (invert_total_end tau bq L T e d d' n n' E E'); assumption.
+  - intros s e Hb H Hret H' Hret'. rewrite P10 in H.
+    cbv [invert option_map d_count d_total d_c2c d_start d_end] in H'. rewrite P10 in H'.
+    apply (invert_start_end tau bq L s e d d' n n' E E'); assumption.
+Qed.
+
+(** ** all ten pairs at once: whenever the inverted chop is accepted, it returns the same count and the reciprocal
+    expansion.  [inv_ok]: positive ratios and sizes; the tolerance band is entered on both sides or on neither. *)
+Definition inv_ok (tau : R) (d : data) : Prop :=
+  (forall r, d_c2c d = Some r -> 0 < r /\ band_ok tau r) /\
+  (forall T, d_total d = Some T -> 0 < T /\ band_sym tau T) /\
+  (forall e, d_end d = Some e -> 0 < e) /\
+  (forall s e, d_start d = Some s -> d_end d = Some e -> band_sym tau (e / s)).
+
+Definition invert_cond_law (table : list rel) : Prop :=
+  forall tau bq L d res res' n n' E E', brentq_sound bq -> 0 < tau -> n_given d = 2%nat -> inv_ok tau d ->
+  calculate tau bq L table d = Some res -> returned res = Some (n, E) ->
+  calculate tau bq L table (invert d) = Some res' -> returned res' = Some (n', E') -> n' = n /\ E' = / E.
+
+Lemma invert_cond table : calc_is_plan table -> invert_cond_law table.
+Proof.
+  intros Hp tau bq L d res res' n n' E E' Hbq Htau Hn (Kr & KT & Ke & Kse) H Hret H' Hret'.
+  assert (Htau0 : 0 <= tau) by lra.
+  pose proof (invert_closed table Hp tau bq L res n E Htau0) as (C1 & C2 & C3 & C4 & C5).
+  pose proof (invert_oracle table Hp tau bq L res res' n n' E E' Hbq Htau0) as (O1 & O2).
+  pose proof (invert_root table Hp tau bq L res res' n n' E E' Hbq Htau) as (R1 & R2 & R3).
+  assert (Hfin : forall dd, (exists d', calculate tau bq L table (invert dd) = Some d' /\ returned d' = Some (n, / E)) ->
+                 calculate tau bq L table (invert dd) = Some res' -> n' = n /\ E' = / E).
+  { intros dd [d' [Hc Hr]] Hc'. rewrite Hc in Hc'. inversion Hc'; subst d'. rewrite Hr in Hret'. inversion Hret'. auto. }
+  destruct d as [[c|] [T|] [r|] [s|] [e|]]; cbv in Hn; try discriminate Hn; cbn [d_c2c d_total d_end d_start] in *.
+  - (* count, total *) destruct (KT T eq_refl) as [HT _]. apply (Hfin _ (C2 c T HT H Hret) H').
+  - (* count, c2c *) destruct (Kr r eq_refl) as [Hr _]. apply (Hfin _ (C1 c r Hr H Hret) H').
+  - (* count, start *) apply (O1 c s H Hret H' Hret').
+  - (* count, end *) apply (O2 c e H Hret H' Hret').
+  - (* total, c2c *) destruct (Kr r eq_refl) as [Hr [->|[_ Hb]]].
+    + exfalso. destruct (Hp tau bq L) as (_ & _ & _ & _ & _ & _ & P7 & _). rewrite P7 in H.
+      destruct (reject_ratios tau bq L) as (_ & _ & _ & _ & Hrej & _).
+      rewrite Hrej in H; [discriminate|]. right. replace (1 - 1) with 0 by ring. rewrite Rabs_R0. assumption.
+    + apply (Hfin _ (C5 T r Hb H Hret) H').
+  - (* total, start *) destruct (KT T eq_refl) as [HT Hb]. apply (R1 T s HT Hb H Hret H' Hret').
+  - (* total, end *) destruct (KT T eq_refl) as [HT Hb]. apply (R2 T e HT Hb H Hret H' Hret').
+  - (* c2c, start *) destruct (Kr r eq_refl) as [Hr Hb]. apply (Hfin _ (C3 s r Hr Hb H Hret) H').
+  - (* c2c, end *) destruct (Kr r eq_refl) as [Hr Hb]. apply (Hfin _ (C4 e r Hr (Ke e eq_refl) Hb H Hret) H').
+  - (* start, end *) apply (R3 s e (Kse s e eq_refl eq_refl) H Hret H' Hret').
+Qed.
+
+(** [inv_ok] is satisfiable *)
+Example inv_ok_example : inv_ok (1 / 10) (mk_data None (Some 2) None (Some 1) None).
+Proof.
+  unfold inv_ok; cbn [d_c2c d_total d_end d_start]. split; [|split; [|split]].
+  - intros r H; discriminate.
+  - intros T H; inversion H; subst. split; [lra|]. unfold band_sym.
+    replace (2 - 1) with 1 by ring. rewrite Rabs_R1.
+    replace (/ 2 - 1) with (- (1 / 2)) by field. rewrite Rabs_Ropp, Rabs_pos_eq by lra. split; lra.
+  - intros e H; discriminate.
+  - intros s e _ H; discriminate.
+Qed.
+
+(** what [calculate] returns is complete, so it has a count and a total expansion *)
+Lemma rounds_complete tau bq L table f d res : rounds tau bq L table f d = Some res -> complete res = true.
+Proof.
+  revert d. induction f as [|f IH]; intros d H; simpl in H; [discriminate|].
+  destruct (complete d) eqn:Hc.
+  - inversion H; subst. assumption.
+  - destruct (sweep tau bq L table d) as [d1|]; simpl in H; [|discriminate]. apply (IH d1). assumption.
+Qed.
+
+Lemma complete_returned res : complete res = true -> exists n E, returned res = Some (n, E).
+Proof.
+  destruct res as [[c|] [T|] r s e]; unfold complete, has; simpl; intros H; try discriminate.
+  exists c, T. reflexivity.
+Qed.
+
+(** the full statement of C03_invert under its two remaining hypotheses: [inv_ok] and "the inverted chop is
+    accepted" (for the five pairs that go through brentq this is where the convergence of scipy would be needed;
+    for count = 1 with a size it is false - notes/C03.md, finding 2) *)
+Definition invert_full_cond_law (table : list rel) : Prop :=
+  forall tau bq L d res n E, brentq_sound bq -> 0 < tau -> n_given d = 2%nat -> inv_ok tau d ->
+  calculate tau bq L table d = Some res -> returned res = Some (n, E) ->
+  calculate tau bq L table (invert d) <> None ->
+  exists res', calculate tau bq L table (invert d) = Some res' /\ returned res' = Some (n, / E).
+
+Lemma invert_full_cond table : calc_is_plan table -> invert_full_cond_law table.
+Proof.
+  intros Hp tau bq L d res n E Hbq Htau Hn Hok H Hret Hacc.
+  destruct (calculate tau bq L table (invert d)) as [res'|] eqn:H'; [|contradiction].
+  exists res'. split; [reflexivity|].
+  destruct (complete_returned res' (rounds_complete _ _ _ _ _ _ _ H')) as [n' [E' Hret']].
+  destruct (invert_cond table Hp tau bq L d res res' n n' E E' Hbq Htau Hn Hok H Hret H' Hret') as [-> ->].
+  assumption.
+Qed.
